@@ -195,12 +195,19 @@ structure Cond where
   full : Bool
   ambiguous : Bool
 
-def condOf {n m s : Nat} (c : Cache n m s Float) (eps : Float) : Cond :=
+/-- `band`: how far a singular value computed by the implementation's SVD may lie from the one the
+driver computes (backward error of either decomposition times σ_max).  A singular value within the
+band of the threshold may be kept by one and dropped by the other: the rank decision is ambiguous
+and nothing is compared for that step.  (A column of magnitude 1e-300 has a true singular value of
+1e-300, nalgebra reports rounding noise of a few u·σ_max for it, which is above the *absolute*
+default threshold ε = u as soon as σ_max ≳ 1.) -/
+def condOf {n m s : Nat} (c : Cache n m s Float) (eps : Float) (band : Float := 0.0) : Cond :=
   let sig := c.svd.sigma.toArray
   let smax := arrMaxAbs sig
   let kept := sig.filter (· > eps)
   let smin := kept.foldl (fun a v => if v < a then v else a) smax
   let amb := sig.any fun v => (v > eps / 1e3 && v ≤ eps) || (v > eps && v < eps * 1e3 && v < smax * 1e-6)
+    || (v - eps).abs ≤ band * smax
   { smax := smax, sminKept := smin, kappa := if smin > 0.0 then smax / smin else 1e300,
     rank := kept.size, full := kept.size == m && m ≤ n, ambiguous := amb }
 
@@ -305,7 +312,7 @@ def stateCore (focus : String) (c : Case) : Acc × String := Id.run do
     match Pbefore.cached with
     | none => pure ()
     | some cache =>
-      let cond := condOf cache eps
+      let cond := condOf cache eps dsvd
       if cond.kappa > kmax then kmax := cond.kappa
       if !cond.full then rankTag := "deficient"
       let Aw : FMat := match step.tables.phi with
